@@ -16,6 +16,33 @@ use crate::{
     },
 };
 
+/// The definitions below are entered by name and a later one replaces an earlier one: two
+/// types (struct, enum, extern type) or two traits of one name in a package are an error.
+fn report_redefined_types(
+    diagnostics: &mut Diagnostics,
+    hir: &hir::PackageHir,
+    hir_table: &hir::HirTable,
+) {
+    let mut types: HashSet<String> = HashSet::new();
+    let mut traits: HashSet<String> = HashSet::new();
+    for item in hir.toplevels.iter() {
+        let (what, name, seen) = match hir_table.def(*item) {
+            hir::Def::EnumDef(def) => ("Type", def.name.to_ident_name(), &mut types),
+            hir::Def::StructDef(def) => ("Type", def.name.to_ident_name(), &mut types),
+            hir::Def::ExternType(def) => ("Type", def.goml_name.to_ident_name(), &mut types),
+            hir::Def::TraitDef(def) => ("Trait", def.name.to_ident_name(), &mut traits),
+            _ => continue,
+        };
+        if !seen.insert(name.clone()) {
+            diagnostics.push(Diagnostic::new(
+                Stage::Typer,
+                Severity::Error,
+                format!("{} {} is already defined", what, name),
+            ));
+        }
+    }
+}
+
 fn predeclare_types(genv: &mut GlobalTypeEnv, hir: &hir::PackageHir, hir_table: &hir::HirTable) {
     for item in hir.toplevels.iter() {
         match hir_table.def(*item) {
@@ -809,6 +836,7 @@ pub fn collect_typedefs(
     hir: &hir::PackageHir,
     hir_table: &hir::HirTable,
 ) {
+    report_redefined_types(diagnostics, hir, hir_table);
     predeclare_types(env.current_mut(), hir, hir_table);
 
     for item in hir.toplevels.iter() {
